@@ -11,15 +11,15 @@ sys.dont_write_bytecode = True
 
 import numpy as np  # noqa: E402
 import nptdms  # noqa: E402
-import nptdms.reader  # noqa: E402
-import nptdms.writer  # noqa: E402
-import nptdms.tdms  # noqa: E402
+try:
+    import nptdms.reader as _reader_module  # noqa: E402   (only for the optional _array_equal knob)
+except ImportError:
+    _reader_module = None
 from nptdms.log import log_manager  # noqa: E402
 
 if not os.path.realpath(nptdms.__file__).startswith(os.path.realpath(REPO) + os.sep):
     raise RuntimeError('nptdms imported from %s, expected under %s' % (nptdms.__file__, REPO))
 
-from .simfs import OsShim  # noqa: E402
 
 TdmsFile = nptdms.TdmsFile
 TdmsWriter = nptdms.TdmsWriter
@@ -43,17 +43,34 @@ np.seterr(all='ignore')
 
 @contextlib.contextmanager
 def installed(fs):
-    """nptdms.reader / nptdms.writer open files through `fs` and discover index files in it."""
-    real_os = nptdms.reader.os
-    nptdms.reader.open = fs.open
-    nptdms.writer.open = fs.open
-    nptdms.reader.os = OsShim(fs)
+    """While active, every way the code under test may reach a file by name - open / io.open (so pathlib too),
+    os.path.isfile / exists / getsize, os.stat - is answered by `fs` for simulated names (relative names and names under
+    simfs.SIM_ROOT) and by the real file system for everything else.  The seam is process-wide on purpose: it does not
+    depend on which nptdms module opens files or how."""
+    import builtins
+    import io
+    from . import simfs
+    saved = (builtins.open, io.open, os.path.isfile, os.path.exists, os.path.getsize, os.stat)
+
+    def p_isfile(p):
+        return fs.isfile(p) if simfs.sim_name(p) is not None else saved[2](p)
+
+    def p_exists(p):
+        return fs.isfile(p) if simfs.sim_name(p) is not None else saved[3](p)
+
+    def p_getsize(p):
+        return fs.getsize(p) if simfs.sim_name(p) is not None else saved[4](p)
+
+    def p_stat(p, *a, **kw):
+        return fs.stat(p) if simfs.sim_name(p) is not None else saved[5](p, *a, **kw)
+    builtins.open = fs.open
+    io.open = fs.open
+    os.path.isfile, os.path.exists, os.path.getsize, os.stat = p_isfile, p_exists, p_getsize, p_stat
     try:
         yield fs
     finally:
-        del nptdms.reader.open
-        del nptdms.writer.open
-        nptdms.reader.os = real_os
+        builtins.open, io.open = saved[0], saved[1]
+        os.path.isfile, os.path.exists, os.path.getsize, os.stat = saved[2:]
 
 
 class _Sink(object):
@@ -69,7 +86,7 @@ class _Sink(object):
 @contextlib.contextmanager
 def knobs(dedup_chunk=None, debug_log=False):
     """Tuning constants randomised per world (swarm knobs)."""
-    f = getattr(nptdms.reader, '_array_equal', None)
+    f = getattr(_reader_module, '_array_equal', None) if _reader_module is not None else None
     # the seam exists only while the function keeps its one defaulted `chunk_size` parameter; otherwise the knob is a no-op
     usable = (f is not None and f.__defaults__ is not None and len(f.__defaults__) == 1 and
               f.__code__.co_varnames[:f.__code__.co_argcount][-1:] == ('chunk_size',))
